@@ -83,13 +83,20 @@ type world struct {
 	expAt map[string]time.Time
 	// last value written per key (for writes that deliberately keep the value)
 	lastVal map[string]string
+	// C02 "expiry phase": a setup task writes (partly expiring) records, time passes,
+	// then the concurrent phase starts from that state
+	initState map[string]linState
+	setupExpiring map[string]bool // key -> the setup write in progress carries a short expiry
+	setupExpAt    map[string]time.Time // key -> expiry instant written by the setup task
+	skipKey       map[string]bool      // key -> a concurrent-phase operation started before that instant: not judged
+	opStart       map[string]time.Time // task -> start of its current operation
 	// cancellations tied to the next mutation of a key (C07)
 	beforeMut map[string][]func()
 	afterMut  map[string][]func()
 }
 
 func New(c *sim.Case) (sim.World, error) {
-	return &world{c: c, mode: c.Mode, allVers: map[string]string{}, states: map[string][]keyState{}, lastMutRet: map[string]time.Time{}, expAt: map[string]time.Time{}, lastVal: map[string]string{}, beforeMut: map[string][]func(){}, afterMut: map[string][]func(){}}, nil
+	return &world{c: c, mode: c.Mode, allVers: map[string]string{}, states: map[string][]keyState{}, lastMutRet: map[string]time.Time{}, expAt: map[string]time.Time{}, lastVal: map[string]string{}, initState: map[string]linState{}, setupExpiring: map[string]bool{}, setupExpAt: map[string]time.Time{}, skipKey: map[string]bool{}, opStart: map[string]time.Time{}, beforeMut: map[string][]func(){}, afterMut: map[string][]func(){}}, nil
 }
 
 func (w *world) prop() string { return w.c.Prop }
@@ -284,6 +291,21 @@ func (w *world) doOp(ctx context.Context, ts *taskState, op sim.Op, i int) {
 	} else if op.K == "list" {
 		op.S = rk(op.S)
 	}
+	w.opStart[ts.name] = time.Now()
+	if ts.name == "s0" && w.c.Knob("exp_phase", 0) == 1 {
+		for j, k := range split(op.S) {
+			exp := op.D > 0 && op.D < int64(time.Minute)
+			if op.K == "putmany" && op.E != 0 && op.E&(1<<uint(j)) == 0 {
+				exp = false
+			}
+			w.setupExpiring[k] = exp
+			if exp {
+				w.setupExpAt[k] = time.Now().Add(time.Duration(op.D))
+			} else {
+				delete(w.setupExpAt, k)
+			}
+		}
+	}
 	if op.V == "=" {
 		// keep the stored value (a lease-refresh style write): only version/expiry move
 		op.V = w.lastVal[op.S]
@@ -294,8 +316,12 @@ func (w *world) doOp(ctx context.Context, ts *taskState, op sim.Op, i int) {
 		call = e.Stamp()
 		t0 = time.Now()
 		// the mutation may take effect at any moment from now on
-		for _, k := range split(op.S) {
-			w.states[k] = append(w.states[k], keyState{present: op.K != "del", a: call, b: 1 << 62, pending: true, at: t0})
+		for j, k := range split(op.S) {
+			present := op.K != "del"
+			if op.D < 0 && (op.K == "put" || op.K == "create" || (op.K == "putmany" && (op.E == 0 || op.E&(1<<uint(j)) != 0))) {
+				present = false // written already expired
+			}
+			w.states[k] = append(w.states[k], keyState{present: present, a: call, b: 1 << 62, pending: true, at: t0})
 			for _, f := range w.beforeMut[k] {
 				f()
 			}
@@ -404,7 +430,7 @@ func (w *world) doOp(ctx context.Context, ts *taskState, op sim.Op, i int) {
 			w.record(ts, "put", op.S, op.V, "", o, call)
 		}
 		if wmode && err == nil {
-			w.newState(op.S, true, r.Version, call)
+			w.newState(op.S, op.D >= 0, r.Version, call) // D < 0: written already expired = absent
 		}
 		if err == nil {
 			w.lastVal[op.S] = op.V
@@ -440,8 +466,8 @@ func (w *world) doOp(ctx context.Context, ts *taskState, op sim.Op, i int) {
 			}
 		}
 		if wmode && err == nil {
-			for _, k := range keys {
-				w.newState(k, true, "", call)
+			for j, k := range keys {
+				w.newState(k, exps[j] == nil || op.D >= 0, "", call)
 			}
 		}
 	case "cas":
@@ -548,6 +574,38 @@ func (w *world) canon(s string) string { return canonStr(s) }
 func (w *world) record(ts *taskState, kind, key, val, ver string, o outcome, call int64) {
 	if w.e.Frozen() {
 		return
+	}
+	if ts.name == "s0" && w.c.Knob("exp_phase", 0) == 1 {
+		// sequential setup phase: it only defines the state the concurrent phase starts from
+		st := w.initState[key]
+		if o.Ver != "" {
+			st.used = usedAdd(st.used, o.Ver)
+		}
+		if o.Err == "ok" {
+			switch kind {
+			case "create", "put", "cas":
+				st.present, st.val, st.ver, st.unbound = true, val, o.Ver, false
+			case "putmany":
+				st.present, st.val, st.ver, st.unbound = true, val, "", true
+			case "del":
+				st.present, st.val, st.ver, st.unbound = false, "", "", false
+			}
+			if kind != "del" && kind != "get" && w.setupExpiring[key] {
+				// the record expires before the concurrent phase starts: the key is absent then
+				st.present, st.val, st.ver, st.unbound = false, "", "", false
+			}
+		}
+		w.initState[key] = st
+		if o.Err == "ok" && (kind == "create" || kind == "put" || kind == "cas") && o.Ver != "" {
+			w.allVers[o.Ver] = fmt.Sprintf("%s(%s) by %s", kind, key, ts.name)
+		}
+		return
+	}
+	if at, ok := w.setupExpAt[key]; ok && !w.opStart[ts.name].After(at.Add(2*time.Millisecond)) {
+		// this operation started before the setup record had safely expired (e.g. a
+		// minimised case without the waiting step): the start state of the key is not
+		// the one assumed, so its history is not judged
+		w.skipKey[key] = true
 	}
 	if o.Err == "ok" && (kind == "create" || kind == "put" || kind == "cas") {
 		what := fmt.Sprintf("%s(%s) by %s", kind, key, ts.name)
